@@ -1002,7 +1002,8 @@ func toDataPointGroups(in []*autogen.DataPointGroup) ([]*message.DataPointGroup,
 
 func toDataPointGroup(in *autogen.DataPointGroup) (*message.DataPointGroup, error) {
 	if in == nil {
-		return &message.DataPointGroup{}, nil
+		// e.g. a JSON null inside data_point_groups: a group without data id is not a valid message
+		return nil, errors.Errorf("data_point_group is null : %w", errors.ErrMalformedMessage)
 	}
 	dataIDOrAlias, err := toDataIDOrAlias(in.DataIdOrAlias)
 	if err != nil {
